@@ -17,6 +17,7 @@ stdin: JSON list of cases {op: ...}; stdout: JSON list of canonical observations
                                                           -> [code, violations, number of printed lines]
   rstreader {line}                                       restructuredtext._EpydocReader.report(system_message(line=...))
                                                           -> [ParseError._linenum, the lineno_offset reportErrors derives from it]
+  descr    {own_path, mod_path}                           Documentable.description of an object whose module has another path
   rstconsol {doc}                                        restructuredtext.parse_docstring of a docstring with an unsplittable
                                                           consolidated field -> [ParseError._linenum, lineno_offset]
   attrline {fmt, src, cls, attr}                          extract_fields: line of an attribute documented by a field
@@ -142,6 +143,15 @@ def run_case(c):
         reader.report(nodes.system_message('some message', **attrs))
         e = errors[0]
         return [e._linenum, (e.linenum() or 1) - 1]
+    if op == 'descr':
+        system = mk_system(0)
+        mod = model.Module(system, 'pkg', source_path=Path(c['mod_path']) if c['mod_path'] else None)
+        system.addObject(mod)
+        o = model.Function(system, 'f', mod, source_path=Path(c['own_path']) if c['own_path'] else None)
+        o.parentMod = mod
+        if c['own_path'] is None:
+            o.source_path = None
+        return o.description
     if op == 'rstconsol':
         from pydoctor.epydoc.markup import restructuredtext as rst
         errs = []
